@@ -33,6 +33,11 @@ def model_checks(res, tier):
             if r['violated']:
                 raise vlib.HarnessError('MC_Sva violated: the de Pina design model does not refine Mcb\n' + r['out'][-3000:])
             res.add_mc('MC_Sva (support-vector scheme with every tie/order choice refines Mcb)', r)
+        if res.pid == 'C01' and tier != 'quick':
+            r = vlib.tlc_ok('TreesLookup', 'MC_TreesLookup_q.cfg', extra=['-coverage', '1'], timeout=3000)
+            if r['violated']:
+                raise vlib.HarnessError('MC_TreesLookup violated\n' + r['out'][-3000:])
+            res.add_mc('TreesLookup.tla (per-phase search of the tree variants: parity rule + validity + weight-sorted lookup over Horton / every-FVS / ISO collections = lightest odd cycle), every S', r)
         if res.pid == 'C02':
             cfg = 'MC_SignedSearch_q.cfg' if tier == 'quick' else 'MC_SignedSearch_t.cfg'
             r = vlib.tlc_ok('SignedSearch', cfg, extra=['-coverage', '1'], timeout=3000)
